@@ -23,10 +23,12 @@ import (
 // call is the server-side view of one scripted RPC. The script is found through the "script-id"
 // request metadata, so one server value serves the wrapper and the bufconn gRPC server alike.
 type call struct {
-	ops  []sop
-	fin  fin
-	gate chan struct{} // closed by the client driver once the client script has finished
-	done chan struct{} // closed when the handler returns
+	ops   []sop
+	fin   fin
+	amp   int           // derive amp*1000 child contexts before returning
+	reuse bool          // reuse one response object for all sends, overwrite it after each send
+	gate  chan struct{} // closed by the client driver once the client script has finished
+	done  chan struct{} // closed when the handler returns
 
 	phase  atomic.Int32 // 0 running, 1 blocked in recv, 2 blocked in wait, 3 returned
 	nrecvd atomic.Int32 // messages the handler has received so far
@@ -173,7 +175,26 @@ func (c *call) run(io_ sio) error {
 	if ctx.Err() != nil {
 		return c.abort(ctx)
 	}
+	if c.amp > 0 {
+		deriveChildren(ctx, c.amp*1000)
+	}
 	return c.fin.err()
+}
+
+// deriveChildren: what a handler with per-item worker contexts does. The children are kept alive
+// until the call's context ends and are then released.
+func deriveChildren(ctx context.Context, n int) {
+	cancels := make([]context.CancelFunc, 0, n)
+	for i := 0; i < n; i++ {
+		_, cancel := context.WithCancel(ctx)
+		cancels = append(cancels, cancel)
+	}
+	go func() {
+		<-ctx.Done()
+		for _, cancel := range cancels {
+			cancel()
+		}
+	}()
 }
 
 func word(n int) string { return "m" + strconv.Itoa(n) }
@@ -232,6 +253,7 @@ type sstreamIO struct {
 	st    grpc.ServerStreamingServer[testproto.ServerStreamResponse]
 	req   *testproto.ServerStreamRequest
 	first bool
+	reuse *testproto.ServerStreamResponse
 }
 
 func (u *sstreamIO) ctx() context.Context            { return u.st.Context() }
@@ -239,6 +261,12 @@ func (u *sstreamIO) setHeader(md metadata.MD) error  { return u.st.SetHeader(md)
 func (u *sstreamIO) sendHeader(md metadata.MD) error { return u.st.SendHeader(md) }
 func (u *sstreamIO) setTrailer(md metadata.MD)       { u.st.SetTrailer(md) }
 func (u *sstreamIO) send(n int) (proto.Message, error) {
+	if u.reuse != nil {
+		u.reuse.Counter = int32(n)
+		err := u.st.Send(u.reuse)
+		u.reuse.Counter = 99 // the handler goes on using its object
+		return nil, err
+	}
 	m := &testproto.ServerStreamResponse{Counter: int32(n)}
 	return m, u.st.Send(m)
 }
@@ -255,7 +283,11 @@ func (s *scripted) ServerStream(req *testproto.ServerStreamRequest, st grpc.Serv
 	if err != nil {
 		return err
 	}
-	return c.run(&sstreamIO{st: st, req: req})
+	io_ := &sstreamIO{st: st, req: req}
+	if c.reuse {
+		io_.reuse = &testproto.ServerStreamResponse{}
+	}
+	return c.run(io_)
 }
 
 // --- client stream -------------------------------------------------------------------------------
@@ -291,7 +323,8 @@ func (s *scripted) ClientStream(st grpc.ClientStreamingServer[testproto.ClientSt
 // --- bidi ----------------------------------------------------------------------------------------
 
 type bidiIO struct {
-	st grpc.BidiStreamingServer[testproto.BidiStreamRequest, testproto.BidiStreamResponse]
+	st    grpc.BidiStreamingServer[testproto.BidiStreamRequest, testproto.BidiStreamResponse]
+	reuse *testproto.BidiStreamResponse
 }
 
 func (u *bidiIO) ctx() context.Context            { return u.st.Context() }
@@ -299,6 +332,12 @@ func (u *bidiIO) setHeader(md metadata.MD) error  { return u.st.SetHeader(md) }
 func (u *bidiIO) sendHeader(md metadata.MD) error { return u.st.SendHeader(md) }
 func (u *bidiIO) setTrailer(md metadata.MD)       { u.st.SetTrailer(md) }
 func (u *bidiIO) send(n int) (proto.Message, error) {
+	if u.reuse != nil {
+		u.reuse.Msg = word(n)
+		err := u.st.Send(u.reuse)
+		u.reuse.Msg = "m99"
+		return nil, err
+	}
 	m := &testproto.BidiStreamResponse{Msg: word(n)}
 	return m, u.st.Send(m)
 }
@@ -315,7 +354,11 @@ func (s *scripted) BidiStream(st grpc.BidiStreamingServer[testproto.BidiStreamRe
 	if err != nil {
 		return err
 	}
-	return c.run(&bidiIO{st: st})
+	io_ := &bidiIO{st: st}
+	if c.reuse {
+		io_.reuse = &testproto.BidiStreamResponse{}
+	}
+	return c.run(io_)
 }
 
 var _ = fmt.Sprint
